@@ -1230,15 +1230,22 @@ static void join_adjacent_string_literals(Token *tok) {
   }
 }
 
-// Entry point function of the preprocessor.
-Token *preprocess(Token *tok) {
+// Macro-expand and evaluate directives. The result is a list of
+// preprocessing tokens; this is what -E prints.
+Token *preprocess_pp_tokens(Token *tok) {
   tok = preprocess2(tok);
   if (cond_incl)
     error_tok(cond_incl->tok, "unterminated conditional directive");
-  convert_pp_tokens(tok);
-  join_adjacent_string_literals(tok);
 
   for (Token *t = tok; t; t = t->next)
     t->line_no += t->line_delta;
+  return tok;
+}
+
+// Entry point function of the preprocessor.
+Token *preprocess(Token *tok) {
+  tok = preprocess_pp_tokens(tok);
+  convert_pp_tokens(tok);
+  join_adjacent_string_literals(tok);
   return tok;
 }
